@@ -296,8 +296,9 @@ def run_adaptive(ctx, case, rng, calc_unc=False):
     with capture(alg) as unf3:
         s2.run_all()
     ctx.state("same instance re-run with relaxed criteria")
-    if unf3:
-        judge_run(ctx, alg, unf3, a2.result, hc3, not alg.startswith("pLSCF"), suffix)
+    # the unfiltered solution depends on data and identification settings only, both unchanged: if the re-run does not pass the
+    # probe again (an implementation may cache the identification) the solution captured by the previous run is the reference
+    judge_run(ctx, alg, unf3 if unf3 else unf2, a2.result, hc3, not alg.startswith("pLSCF"), suffix)
     need = [c for c in ("xi", "mpc", "mpd") + (("cov",) if calc_unc else ())]
     if all(alone.get(c, 0) > 0 for c in need):
         ctx.nontrivial((alg, calc_unc, tuple(round(v, 5) if isinstance(v, float) else v for v in hc2.values())))
